@@ -244,6 +244,8 @@ type pathCtx struct {
 	modelValid bool
 	mev        evaluator // model evaluator
 	uev        evaluator // scratch evaluator for unary domain checks
+	pev        evaluator // scratch evaluator for product-domain checks
+	ProdShortcuts int
 
 	known      map[int]bool       // term id -> truth value implied by the PC
 	domains    map[int]*[4]uint64 // 8-bit variable id -> feasible values (over-approximation)
@@ -422,7 +424,11 @@ func (p *pathCtx) decide(c *term) (bool, bool) {
 	if v, ok := p.eval3(c, 0); ok {
 		return v, true
 	}
-	if s := p.tt.support(c); len(s) == 1 {
+	if s := p.tt.support(c); len(s) >= 2 {
+		if v, ok := p.decideProduct(c, s); ok {
+			return v, true
+		}
+	} else if len(s) == 1 {
 		vt := p.tt.all[s[0]]
 		if d := p.domains[vt.id]; d != nil && vt.w == 8 {
 			sawT, sawF := false, false
@@ -444,6 +450,61 @@ func (p *pathCtx) decide(c *term) (bool, bool) {
 		}
 	}
 	return false, false
+}
+
+// decideProduct enumerates the product of the (over-approximate)
+// byte domains of the <=4 variables c depends on, when that product
+// is small; c is implied when it evaluates the same everywhere.
+func (p *pathCtx) decideProduct(c *term, s []int) (bool, bool) {
+	var vals [4][]uint64
+	size := 1
+	for k, id := range s {
+		vt := p.tt.all[id]
+		d := p.domains[id]
+		if vt.w != 8 || d == nil {
+			return false, false
+		}
+		for x := 0; x < 256; x++ {
+			if d[x>>6]&(1<<uint(x&63)) != 0 {
+				vals[k] = append(vals[k], uint64(x))
+			}
+		}
+		size *= len(vals[k])
+		if size > 2048 || size == 0 {
+			return false, false
+		}
+	}
+	env := map[int]uint64{}
+	p.pev.env = env
+	sawT, sawF := false, false
+	idx := make([]int, len(s))
+	for {
+		for k, id := range s {
+			env[id] = vals[k][idx[k]]
+		}
+		p.pev.next()
+		if p.pev.eval(c) != 0 {
+			sawT = true
+		} else {
+			sawF = true
+		}
+		if sawT && sawF {
+			return false, false
+		}
+		k := 0
+		for ; k < len(s); k++ {
+			idx[k]++
+			if idx[k] < len(vals[k]) {
+				break
+			}
+			idx[k] = 0
+		}
+		if k == len(s) {
+			break
+		}
+	}
+	p.ProdShortcuts++
+	return sawT, true
 }
 
 func (p *pathCtx) eval3(t *term, depth int) (bool, bool) {
